@@ -66,6 +66,9 @@ fn http(port: u16, method: &str, path: &str, timeout_ms: u64) -> Option<(u16, St
     Some((status, body))
 }
 
+/// token lifetime (seconds) of the nodes that are spawned; 0 = OpenAPI auth off
+static AUTH_TTL: std::sync::atomic::AtomicU64 = std::sync::atomic::AtomicU64::new(0);
+
 fn free_base() -> u16 {
     // 10 consecutive free ports above a pid-dependent offset
     let mut base = 21000 + ((std::process::id() as u16) % 400) * 20;
@@ -95,6 +98,15 @@ impl NodeP {
             .env("RNACOS_ENABLE_METRICS", "false")
             .env("RNACOS_HTTP_WORKERS", "2")
             .env("HOME", self.dir.to_string_lossy().to_string());
+        let ttl = AUTH_TTL.load(std::sync::atomic::Ordering::SeqCst);
+        if ttl > 0 {
+            // OpenAPI auth on, tokens live <ttl> seconds, the initial administrator is admin/admin (scenarios `upauth`)
+            cmd.env("RNACOS_ENABLE_OPEN_API_AUTH", "true")
+                .env("RNACOS_API_LOGIN_TIMEOUT", ttl.to_string())
+                .env("RNACOS_API_LOGIN_ONE_MINUTE_LIMIT", "100000")
+                .env("RNACOS_INIT_ADMIN_USERNAME", "admin")
+                .env("RNACOS_INIT_ADMIN_PASSWORD", "admin");
+        }
         if self.id == 1 {
             cmd.env("RNACOS_RAFT_AUTO_INIT", "true");
         } else {
@@ -167,9 +179,13 @@ pub fn run() {
     // gRPC clients (the nacos_rust_client crate r-nacos itself depends on), by name: each holds one bi-stream connection
     // to the node it was created for and registers ephemeral instances through it
     let mut gclients: std::collections::HashMap<String, std::sync::Arc<nacos_rust_client::client::naming_client::NamingClient>> = Default::default();
+    // alias -> access token issued by a real login (scenarios with OpenAPI auth on)
+    let mut tokens: Vec<(String, String)> = vec![];
     for_each_line(|l| {
         if l.starts_with('#') {
             gclients.clear();
+            tokens.clear();
+            AUTH_TTL.store(0, std::sync::atomic::Ordering::SeqCst);
             for n in nodes.iter_mut() {
                 n.signal(libc::SIGCONT);
                 n.kill();
@@ -282,6 +298,71 @@ pub fn run() {
                     work = tempfile::tempdir().unwrap();
                 }
             }
+            // one node with OpenAPI auth on and access tokens that live <ttl> seconds; up = it refuses an anonymous read
+            // and lets the initial administrator log in (the user is created through raft after the start)
+            ["upauth", ttl] => {
+                AUTH_TTL.store(ttl.parse().unwrap_or(3), std::sync::atomic::Ordering::SeqCst);
+                base = free_base();
+                nodes = vec![NodeP { id: 1, http: base, dir: work.path().join("n1"), child: None, stopped: false }];
+                let _ = std::fs::create_dir_all(&nodes[0].dir);
+                nodes[0].spawn(base, snap);
+                let deadline = std::time::Instant::now() + Duration::from_secs(40);
+                let mut r = "dead no-login".to_string();
+                while std::time::Instant::now() < deadline {
+                    if let Some((200, b)) = http(base, "POST", "/nacos/v1/auth/login?username=admin&password=admin", 3000) {
+                        if b.contains("accessToken") {
+                            r = "ok".to_string();
+                            break;
+                        }
+                    }
+                    std::thread::sleep(Duration::from_millis(300));
+                }
+                r
+            }
+            ["login", i, alias] => match idx(i, &nodes) {
+                Some(i) => match http(nodes[i].http, "POST", "/nacos/v1/auth/login?username=admin&password=admin", 4000) {
+                    Some((200, b)) => match serde_json::from_str::<serde_json::Value>(&b).ok().and_then(|v| v["accessToken"].as_str().map(|x| x.to_string())) {
+                        Some(t) => {
+                            tokens.retain(|(a, _)| a != alias);
+                            tokens.push((alias.to_string(), t));
+                            "ok".to_string()
+                        }
+                        None => "err no-token".to_string(),
+                    },
+                    Some((st, _)) => format!("err {}", st),
+                    None => "err down".to_string(),
+                },
+                None => "bad-op".to_string(),
+            },
+            // a read / a publish that carries the token of <alias> (`none` = no token, `garbage` = a made-up one)
+            ["tget", i, alias, key] | ["tpub", i, alias, key, _] => match idx(i, &nodes) {
+                Some(i) => {
+                    let tok = match *alias {
+                        "none" => None,
+                        "garbage" => Some("0123456789abcdef0123456789abcdef".to_string()),
+                        a => tokens.iter().find(|(x, _)| x == a).map(|(_, t)| t.clone()),
+                    };
+                    let mut path = format!("/nacos/v1/cs/configs?dataId={}&group=g", enc(key));
+                    if ws[0] == "tpub" {
+                        path.push_str(&format!("&content={}", enc(ws[4])));
+                    }
+                    if let Some(t) = &tok {
+                        path.push_str(&format!("&accessToken={}", t));
+                    }
+                    // a node that was just started needs a moment before it listens
+                    let deadline = std::time::Instant::now() + Duration::from_secs(20);
+                    let mut r = "status down".to_string();
+                    while std::time::Instant::now() < deadline {
+                        if let Some((st, _)) = http(nodes[i].http, if ws[0] == "tpub" { "POST" } else { "GET" }, &path, 4000) {
+                            r = format!("status {}", st);
+                            break;
+                        }
+                        std::thread::sleep(Duration::from_millis(200));
+                    }
+                    r
+                }
+                None => "bad-op".to_string(),
+            },
             ["start", i] => match idx(i, &nodes) {
                 Some(i) => {
                     nodes[i].kill();
